@@ -119,7 +119,8 @@ ViewOf(s) == [kids   |-> [a \in AIds |-> IF s.A[a].ex THEN Kids(s, a) ELSE {}],
               u      |-> [b \in BIds |-> s.B[b].u],
               ref    |-> [b \in BIds |-> s.B[b].a],
               liveA  |-> LiveA(s), liveB |-> LiveB(s),
-              byU    |-> [y \in Vals |-> {b \in BIds : s.B[b].ex /\ s.B[b].u = y}]]
+              byU    |-> [y \in Vals |-> {b \in BIds : s.B[b].ex /\ s.B[b].u = y}],
+              quiet  |-> FALSE]     \* set by Next: the session is open and no read can fail (not Doomed, not Transient)
 
 (* seeded initial databases (the harness writes them into the file with plain SQL), so that short behaviours
    already meet existing rows, unique values and links *)
@@ -520,6 +521,14 @@ EndOk ==
           /\ ev' = Ev("End", "-", 0, 0, 0, "Integrity", {})
           /\ UNCHANGED db
 
+(* leaving the db_session normally after a flush of this session has failed (the program caught the error):
+   whatever is reported, nothing of the session may be committed (C14) *)
+EndAfterFailure ==
+    /\ sess = "aborted"
+    /\ sess' = "none" /\ cur' = db /\ tx' = db /\ CloseSession
+    /\ \E out \in {"Integrity", "ok", "Internal"} : ev' = Ev("End", "-", 0, 0, 0, out, {})
+    /\ UNCHANGED db
+
 (* leaving the db_session with an exception: rollback *)
 EndExc ==
     /\ sess \in {"open", "aborted"}
@@ -544,9 +553,10 @@ Reads  == \/ \E k \in AIds : GetV(k) \/ Coll(k) \/ LColl(k)
           \/ \E e \in {"A", "B"} : SelAll(e) \/ \E k \in Ids(e) : Find(e, k)
           \/ \E y \in Vals : FindU(y)
 
-Control == Begin \/ Tau \/ Flush \/ Commit \/ Rollback \/ EndOk \/ EndExc
+Control == Begin \/ Tau \/ Flush \/ Commit \/ Rollback \/ EndOk \/ EndAfterFailure \/ EndExc
 
-Next == (Modify \/ Reads \/ Control) /\ view' = ViewOf(cur')
+Next == /\ (Modify \/ Reads \/ Control)
+        /\ view' = [ViewOf(cur') EXCEPT !.quiet = (sess' = "open" /\ ~Doomed' /\ ~Transient')]
 
 Spec == Init /\ [][Next]_vars
 SpecSeeded == InitSeeded /\ [][Next]_vars
@@ -570,7 +580,7 @@ ViewWellFormed == (sess = "open" /\ ~Doomed) => NoDangling(cur) /\ O2OOk(cur) /\
 CommitEqualsSession == [][db' # db => (ev'.op \in {"Commit", "End"} /\ ev'.out = "ok" /\ db' = cur)]_vars
 
 (* C13: a call that raises changes nothing the program can observe *)
-FailureIsNoOp == [][(ev'.out \notin {"ok", "Integrity"}) => (db' = db /\ tx' = tx /\ cur' = cur /\ pendNew' = pendNew /\ pendDel' = pendDel /\ sess' = sess)]_vars
+FailureIsNoOp == [][(ev'.out \notin {"ok", "Integrity"} /\ ev'.op # "End") => (db' = db /\ tx' = tx /\ cur' = cur /\ pendNew' = pendNew /\ pendDel' = pendDel /\ sess' = sess)]_vars
 
 (* C14: a conflict found at flush time commits nothing *)
 FlushConflictAborts == [][(ev'.out = "Integrity") => db' = db]_vars
@@ -583,7 +593,7 @@ ReadsArePure == [][(ev'.op \in {"GetV", "GetU", "GetRef", "Coll", "CollB", "LCol
    the breadth-first search (no behaviour graph needed), a failing assertion stops TLC with an error. *)
 StepProps ==
     /\ Assert(db' # db => (ev'.op \in {"Commit", "End"} /\ ev'.out = "ok" /\ db' = cur), "CommitEqualsSession violated")
-    /\ Assert((ev'.out \notin {"ok", "Integrity"}) => (db' = db /\ tx' = tx /\ cur' = cur /\ pendNew' = pendNew /\ pendDel' = pendDel /\ sess' = sess),
+    /\ Assert((ev'.out \notin {"ok", "Integrity"} /\ ev'.op # "End") => (db' = db /\ tx' = tx /\ cur' = cur /\ pendNew' = pendNew /\ pendDel' = pendDel /\ sess' = sess),
               "FailureIsNoOp violated")
     /\ Assert((ev'.out = "Integrity") => db' = db, "FlushConflictAborts violated")
     /\ Assert((ev'.op \in {"GetV", "GetU", "GetRef", "Coll", "CollB", "LColl", "Find", "FindU", "SelAll"} /\ ev'.out = "ok")
